@@ -14,6 +14,7 @@ type TypeDesc struct {
 	Name string
 	Kind string   // struct | map | slice
 	Tags []string // db tags (struct) or suggested keys (map)
+	Rare bool     // picked less often (types Prepare rejects)
 }
 
 type Schema struct {
@@ -67,6 +68,9 @@ func (g *G) typ(kind string) TypeDesc {
 	for _, t := range g.S.Types {
 		if kind == "" || t.Kind == kind || (kind == "member" && t.Kind != "slice") {
 			c = append(c, t)
+			if !t.Rare {
+				c = append(c, t, t, t, t, t, t, t)
+			}
 		}
 	}
 	if len(c) == 0 || g.R.Chance(1, 40) {
